@@ -98,6 +98,7 @@ type hist struct {
 	slow     int
 	seg      bool
 	to0      bool
+	poolMax  int    // nbcli: MaxConnsPerHost of the Client (0: 3)
 	abortAt  int    // raw: 1 + index of the request after sending which the client closes the connection without reading (0: none)
 	cbPanic  int    // nbc: 1 + index of the request whose callback panics when it is invoked (0: none)
 	dialFail int    // nbc/nbcli: the first dialFail dial attempts of the client fail ...
@@ -405,7 +406,11 @@ func genHist(g *lp.Gen, cid int, thorough bool) {
 	if kind == "nbc" && g.Chance(1, 7) {
 		cbPanic = 1 + dialFail + g.Intn(n-dialFail)
 	}
-	g.P("K %d %s sched=%s slow=%d seg=%d to0=%d dialfail=%d dialkind=%s cbpanic=%d", cid, kind, sched.String(), slow, b(seg), b(to0), dialFail, dialKind, cbPanic)
+	poolMax := 0
+	if kind == "nbcli" && g.Chance(1, 2) {
+		poolMax = 1 + g.Intn(3)
+	}
+	g.P("K %d %s sched=%s slow=%d seg=%d to0=%d dialfail=%d dialkind=%s cbpanic=%d pool=%d", cid, kind, sched.String(), slow, b(seg), b(to0), dialFail, dialKind, cbPanic, poolMax)
 	rid := 0
 	closedFor := false
 	// RFC 7230 6.6 reset hazard: a server that closes while requests are still unread resets the connection,
@@ -421,6 +426,12 @@ func genHist(g *lp.Gen, cid int, thorough bool) {
 		}
 		if afterClose && (inflight > 16384 || slow > 0) {
 			r.sync = true
+		}
+		if poolMax > 0 && dialFail == 0 && g.Chance(2, 3) {
+			r.sync = false // bursts larger than the pool: the surplus waits in getConn
+			if r.d == 0 {
+				r.d = 1 + g.Intn(3)
+			}
 		}
 		if dialFail > 0 {
 			if i < dialFail {
@@ -511,6 +522,58 @@ func genAbort(g *lp.Gen, cid int) {
 	}
 }
 
+// genPool: an op sequence for the pool bookkeeping; the generator keeps its own rough picture of who is busy so that
+// most releases are valid (invalid ones are refused on both sides)
+func genPool(g *lp.Gen) {
+	max := 1 + g.Intn(3)
+	withTimeout := g.Chance(1, 4)
+	tmo := 20000
+	if withTimeout {
+		tmo = 250
+	}
+	g.P("C pool max=%d timeout=%d", max, tmo)
+	count, idle, busy, waiting := 0, []int{}, []int{}, 0
+	n := 6 + g.Intn(20)
+	for i := 0; i < n; i++ {
+		switch x := g.Intn(10); {
+		case x < 4 && (!withTimeout || waiting == 0):
+			g.P("G")
+			if len(idle) > 0 {
+				busy = append(busy, idle[0])
+				idle = idle[1:]
+			} else if count < max {
+				busy = append(busy, count)
+				count++
+			} else {
+				waiting++
+			}
+		case x < 7 && len(busy) > 0:
+			k := g.Intn(len(busy))
+			c := busy[k]
+			g.P("R %d", c)
+			if waiting > 0 {
+				waiting--
+			} else {
+				busy = append(busy[:k], busy[k+1:]...)
+				idle = append(idle, c)
+			}
+		case x < 8 && count > 0:
+			g.P("X %d", g.Intn(count+1)) // now and then an unknown conn
+		case x < 9 && withTimeout && waiting > 0:
+			g.P("T")
+			waiting--
+		case x == 9 && g.Chance(1, 6):
+			g.P("R %d", g.Intn(max+1)) // possibly a conn that is not in use: refused
+		default:
+			g.P("S")
+		}
+	}
+	if withTimeout && waiting > 0 {
+		g.P("T")
+	}
+	g.P("S")
+}
+
 func gen(g *lp.Gen) {
 	thorough := g.Tier == "thorough"
 	seed := int(g.Rng.Int63()) // consume one value so streams differ per shard even for n=0
@@ -529,6 +592,7 @@ func gen(g *lp.Gen) {
 	off := g.Intn(len(cells))
 	cid := 0
 	for cs := 0; cs < g.N; cs++ {
+		genPool(g) // cheap (in-process, no network): one bookkeeping case in front of every network case
 		c := cells[(cs+off)%len(cells)]
 		ep := c.epoll
 		// (AsyncReadInPoller variants "eta"/"osa" are understood by exec but not generated: with the default
@@ -651,6 +715,37 @@ func hlogAdd(cid, rid int) {
 	hlogMu.Unlock()
 }
 
+// in-flight handlers per history (server side): the pool bound of nbhttp.Client shows here
+var (
+	inflMu  sync.Mutex
+	inflCur = map[int]int{}
+	inflMax = map[int]int{}
+)
+
+func inflEnter(cid int) {
+	inflMu.Lock()
+	inflCur[cid]++
+	if inflCur[cid] > inflMax[cid] {
+		inflMax[cid] = inflCur[cid]
+	}
+	inflMu.Unlock()
+}
+
+func inflLeave(cid int) {
+	inflMu.Lock()
+	inflCur[cid]--
+	inflMu.Unlock()
+}
+
+func inflTake(cid int) int {
+	inflMu.Lock()
+	defer inflMu.Unlock()
+	m := inflMax[cid]
+	delete(inflMax, cid)
+	delete(inflCur, cid)
+	return m
+}
+
 func hlogTake(cid int) []int {
 	hlogMu.Lock()
 	defer hlogMu.Unlock()
@@ -694,6 +789,8 @@ func handler(w http.ResponseWriter, r *http.Request) {
 	geti := func(k string) int { n, _ := strconv.Atoi(q.Get(k)); return n }
 	st, sz, fr, nw, fl, d := geti("st"), geti("sz"), q.Get("fr"), geti("w"), q.Get("fl") == "1", geti("d")
 	hlogAdd(cid, rid)
+	inflEnter(cid)
+	defer inflLeave(cid)
 	var rb []byte
 	if r.Body != nil {
 		rb, _ = io.ReadAll(r.Body)
@@ -1616,7 +1713,17 @@ func (h *hist) checkResponseCB(r *reqSpec, rec *cbRec, res *result) {
 }
 
 func (s *server) runNbcli(h *hist) {
-	cl := &nbhttp.Client{Engine: s.cli, Timeout: 40 * time.Second, MaxConnsPerHost: 3, Dial: h.dialer()}
+	poolMax := 3
+	if h.poolMax > 0 {
+		poolMax = h.poolMax
+	}
+	cl := &nbhttp.Client{Engine: s.cli, Timeout: 40 * time.Second, MaxConnsPerHost: int32(poolMax), Dial: h.dialer()}
+	defer func() {
+		// at most MaxConnsPerHost ClientConns, one exchange each: never more requests of this client in their handlers
+		if m := inflTake(h.cid); m > poolMax {
+			h.fail(false, "c10-client-pool", "%d requests of one nbhttp.Client were being handled by the server at the same time, MaxConnsPerHost = %d", m, poolMax)
+		}
+	}()
 	if s.cell.tls {
 		cl.TLSClientConfig = cliTLS()
 	}
@@ -1846,7 +1953,7 @@ func parseCase(lines []string) (*caseT, error) {
 				return nil, fmt.Errorf("bad K line")
 			}
 			cid, _ := strconv.Atoi(f[1])
-			h := &hist{cid: cid, kind: f[2], slow: kvi(f, "slow"), seg: kv(f, "seg") == "1", to0: kv(f, "to0") == "1", failAt: kvi(f, "fail"), dialFail: kvi(f, "dialfail"), dialKind: kv(f, "dialkind"), cbPanic: kvi(f, "cbpanic"), abortAt: kvi(f, "abort"), res: map[int]*result{}}
+			h := &hist{cid: cid, kind: f[2], slow: kvi(f, "slow"), seg: kv(f, "seg") == "1", to0: kv(f, "to0") == "1", failAt: kvi(f, "fail"), dialFail: kvi(f, "dialfail"), dialKind: kv(f, "dialkind"), cbPanic: kvi(f, "cbpanic"), abortAt: kvi(f, "abort"), poolMax: kvi(f, "pool"), res: map[int]*result{}}
 			switch h.kind {
 			case "raw", "std", "nbc", "nbcli", "nbx":
 			default:
@@ -1875,7 +1982,7 @@ func parseCase(lines []string) (*caseT, error) {
 // freshHist: a copy of the static part of h with empty results — every attempt runs on its own copy, so a client
 // call that never returns (and the goroutine stuck in it) cannot touch what a later attempt or the printer reads
 func freshHist(h *hist, cliEpoll string) *hist {
-	cl := &hist{cid: h.cid, kind: h.kind, slow: h.slow, seg: h.seg, to0: h.to0, dialFail: h.dialFail, dialKind: h.dialKind, cbPanic: h.cbPanic, abortAt: h.abortAt,
+	cl := &hist{cid: h.cid, kind: h.kind, slow: h.slow, seg: h.seg, to0: h.to0, dialFail: h.dialFail, dialKind: h.dialKind, cbPanic: h.cbPanic, abortAt: h.abortAt, poolMax: h.poolMax,
 		failAt: h.failAt, reqs: h.reqs, res: map[int]*result{}, cut: -1, cliEpoll: cliEpoll}
 	for _, r := range h.reqs {
 		cl.res[r.rid] = &result{cb: -1}
@@ -1902,6 +2009,7 @@ func (c *caseT) runOnce() error {
 		r := &run{h: h, clone: cl, done: make(chan struct{})}
 		runs = append(runs, r)
 		hlogTake(h.cid) // entries of an earlier attempt
+		inflTake(h.cid)
 		go func(h *hist, done chan struct{}) {
 			defer close(done)
 			defer func() {
@@ -1976,7 +2084,177 @@ func sizeClass(n int) string {
 	}
 }
 
+// ---------------------------------------------------------------- pool bookkeeping case (model ClientPool)
+//
+//	C pool max=<m> timeout=<ms>
+//	G          a request enters getConn            -> got c=<id> new=<0|1> reset=<0|1> | blocked r=<request>
+//	R <c>      the callback on ClientConn c runs   -> ok handoff=<request>:<c>:<reset>|- | bad-release
+//	X <c>      ClientConn c is marked closed       -> ok | bad-conn
+//	T          the oldest blocked request times out-> timeout r=<request> | none
+//	S          observation                         -> state count=<n> idle=<n> busy=<sorted ids> waiting=<requests>
+//
+// Sequential in-process drive of the real hostConns through the hook nbhttp.VerifPool (no network).
+
+type poolGet struct {
+	r     int
+	done  chan struct{}
+	hc    *nbhttp.ClientConn
+	reset bool
+	err   error
+}
+
+func runPoolCase(e *lp.Exec, lines []string) {
+	f0 := strings.Fields(lines[0])
+	max, tmo := kvi(f0, "max"), kvi(f0, "timeout")
+	if max <= 0 || tmo <= 0 {
+		for _, l := range lines {
+			e.P("> %s", l)
+			e.P("bad-op")
+		}
+		return
+	}
+	pool := nbhttp.VerifNewPool(int32(max), time.Duration(tmo)*time.Millisecond)
+	ids := map[*nbhttp.ClientConn]int{}
+	var byID []*nbhttp.ClientConn
+	busy := map[int]bool{}
+	var waiting []*poolGet
+	nreq := 0
+	settle := 40 * time.Millisecond
+	idOf := func(hc *nbhttp.ClientConn) (int, int) {
+		if id, ok := ids[hc]; ok {
+			return id, 0
+		}
+		ids[hc] = len(byID)
+		byID = append(byID, hc)
+		return len(byID) - 1, 1
+	}
+	b2i := func(b bool) int {
+		if b {
+			return 1
+		}
+		return 0
+	}
+	e.P("> %s", lines[0])
+	e.P("ok")
+	var key strings.Builder
+	fmt.Fprintf(&key, "pool/%d|", max)
+	for _, line := range lines[1:] {
+		f := strings.Fields(line)
+		e.P("> %s", line)
+		key.WriteString(f[0])
+		switch f[0] {
+		case "G":
+			g := &poolGet{r: nreq, done: make(chan struct{})}
+			nreq++
+			go func() { g.hc, g.reset, g.err = pool.Get(); close(g.done) }()
+			select {
+			case <-g.done:
+				if g.err != nil {
+					e.P("error %v", g.err)
+					continue
+				}
+				id, isNew := idOf(g.hc)
+				if busy[id] {
+					e.Oracle("c10-client-pool", "ClientConn %d handed to request %d while it is still in use", id, g.r)
+				}
+				busy[id] = true
+				e.P("got c=%d new=%d reset=%d", id, isNew, b2i(g.reset))
+			case <-time.After(settle):
+				waiting = append(waiting, g)
+				e.P("blocked r=%d", g.r)
+			}
+		case "R":
+			id, _ := strconv.Atoi(f[1])
+			if id < 0 || id >= len(byID) || !busy[id] {
+				e.P("bad-release")
+				continue
+			}
+			delete(busy, id)
+			pool.Release(byID[id])
+			if len(waiting) == 0 {
+				e.P("ok handoff=-")
+				continue
+			}
+			w := waiting[0]
+			select {
+			case <-w.done:
+				waiting = waiting[1:]
+				if w.err != nil {
+					e.P("ok handoff=error:%v", w.err)
+					continue
+				}
+				wid, _ := idOf(w.hc)
+				if busy[wid] {
+					e.Oracle("c10-client-pool", "ClientConn %d handed to request %d while it is still in use", wid, w.r)
+				}
+				busy[wid] = true
+				e.P("ok handoff=%d:%d:%d", w.r, wid, b2i(w.reset))
+			case <-time.After(2 * time.Second):
+				e.Oracle("c10-client-pool", "request %d still blocked 2 s after ClientConn %d was released", w.r, id)
+				e.P("ok handoff=stuck")
+			}
+		case "X":
+			id, _ := strconv.Atoi(f[1])
+			if id < 0 || id >= len(byID) {
+				e.P("bad-conn")
+				continue
+			}
+			pool.MarkClosed(byID[id])
+			e.P("ok")
+		case "T":
+			if len(waiting) == 0 {
+				e.P("none")
+				continue
+			}
+			w := waiting[0]
+			select {
+			case <-w.done:
+				waiting = waiting[1:]
+				if w.err != nil {
+					e.P("timeout r=%d", w.r)
+				} else {
+					e.P("unexpected-conn r=%d", w.r)
+				}
+			case <-time.After(time.Duration(tmo)*time.Millisecond + 2*time.Second):
+				e.Oracle("c10-client-pool", "blocked request %d did not time out", w.r)
+				e.P("stuck r=%d", w.r)
+			}
+		case "S":
+			cn, free, conns := pool.State()
+			var bs []int
+			for id := range busy {
+				bs = append(bs, id)
+			}
+			sort.Ints(bs)
+			var ws []string
+			for _, w := range waiting {
+				ws = append(ws, strconv.Itoa(w.r))
+			}
+			if cn > max || free+len(bs) != cn || conns != cn {
+				e.Oracle("c10-client-pool", "bookkeeping broken: connNum=%d max=%d free=%d in use=%d conns map=%d", cn, max, free, len(bs), conns)
+			}
+			e.P("state count=%d idle=%d busy=%s waiting=%s", cn, free, joinInts(bs), strings.Join(append(ws, "-"), ","))
+		default:
+			e.P("bad-op")
+		}
+	}
+	e.Count("cells", "pool")
+	e.Key(key.String(), len(lines) > 6)
+}
+
+func joinInts(xs []int) string {
+	ss := []string{"-"}
+	for _, x := range xs {
+		ss = append(ss, strconv.Itoa(x))
+	}
+	return strings.Join(ss, ",")
+}
+
 func runCase(e *lp.Exec, lines []string) {
+	if strings.HasPrefix(lines[0], "C pool ") {
+		runPoolCase(e, lines)
+		return
+	}
 	c, err := parseCase(lines)
 	if err != nil {
 		for _, l := range lines {
